@@ -36,7 +36,8 @@ def collect(chk):
         for jds in fam:
             try:
                 lcap = None if (thorough or cname != "c_hub_tri") else 12
-                for rec, _w in stub.enumerate_leaves({"gen": gen, "via": "direct", "cfg": cname, "jds": jds, "style": (len(traces) // 7) % 4}, max_leaves=lcap):
+                for rec, _w in stub.enumerate_leaves({"gen": gen, "via": "direct", "cfg": cname, "jds": jds, "style": (len(traces) // 7) % 4,
+                                                      "name_style": (len(traces) // 5) % 3}, max_leaves=lcap):
                     traces.append(_strip(rec)); chk.rng_leaves += 1
                 # both construction paths and the network variant: first and a random leaf
                 for g, via in ((gen, "main"),) + ((("network", "direct"), ("network", "main")) if gen == "fast" else ()):
@@ -88,7 +89,7 @@ def collect(chk):
         g = rng.choice(gens)
         traces.append(_strip(stub.execute({"gen": g, "via": rng.choice(["direct", "main"]), "cfg": cfg, "jds": jds,
                                            "rng": ("seed", rng.randrange(1 << 30)), "as_custom": g == "motifs" and not custom,
-                                           "style": rng.randrange(4)})))
+                                           "style": rng.randrange(4), "name_style": rng.randrange(3)})))
     # the custom generator also accepts single-orbit configurations written for the fast one
     for i in range(60 if not thorough else 400):
         cname = rng.choice(["f_edge_tri", "f_mix4", "f_k4_cyc5", "f_single_path"])
